@@ -39,7 +39,7 @@ func (ex *Exec) mapLookup(st *State, mt *types.Map, m Term, k Value) (Value, Ter
 	base := mapKeyBase(mt)
 	kt := ex.keyTerm(mt, k)
 	dom := ex.heapGetIn(st, base+"#dom", ArrSort(SInt, ArrSort(ks, SBool)))
-	ex.mapWF(mt, dom, Term{}, "", m)
+	ex.mapWFNil(mt, dom, st.pc)
 	ok := Sel(Sel(dom, m), kt)
 	var ts []Term
 	zs := ex.flatten(ex.zeroValue(mt.Elem()))
@@ -57,6 +57,28 @@ func (ex *Exec) mapLookup(st *State, mt *types.Map, m Term, k Value) (Value, Ter
 }
 
 // mapWF assumes, once per (heap version, map ref): no key in the nil map; absent keys map to zero.
+// mapWFNil: "the nil map has no keys" for the heap version a lookup reads, stated UNDER THE PATH CONDITION of
+// that read. A version is a term (store …) that exists on every path; on a path where the store that created
+// it did not happen its map operand may be nil, and an unconditional axiom about that version made every such
+// path contradictory (found when a vacuity cover on the error exits of the JSON targeter turned out unsat).
+func (ex *Exec) mapWFNil(mt *types.Map, dom, pc Term) {
+	if strings.Contains(dom.S, "!q") || strings.Contains(pc.S, "!q") {
+		return
+	}
+	key := "nil|" + dom.S + "|" + pc.S
+	if ex.mapWFDone == nil {
+		ex.mapWFDone = map[string]bool{}
+	}
+	if ex.mapWFDone[key] {
+		return
+	}
+	ex.mapWFDone[key] = true
+	ks := ex.keySort(mt)
+	ex.vc.fresh++
+	q := fmt.Sprintf("k!q%d", ex.vc.fresh)
+	ex.vc.AssumeRaw(fmt.Sprintf("(=> %s (forall ((%s %s)) (! (not (select (select %s 0) %s)) :pattern ((select (select %s 0) %s)))))", pc.S, q, ks, dom.S, q, dom.S, q), "the nil map has no keys")
+}
+
 func (ex *Exec) mapWF(mt *types.Map, dom, val Term, zero string, m Term) {
 	if strings.Contains(dom.S, "!q") || strings.Contains(val.S, "!q") || strings.Contains(m.S, "!q") {
 		return // not closed (inside a quantifier over maps): no axiom
